@@ -21,7 +21,8 @@ Definition op_eqb (a b : eop nat) : bool :=
   | _, _ => false
   end.
 
-(* hints compare as multisets: the order of region metadata is not promised *)
+(* hints compare as multisets: the order of region metadata is not promised; keys are compared after the
+   per-region renaming of spec/ExportCanon.v (canon_keys): no numbering of keys is promised *)
 Fixpoint node_eqb (a b : enode nat nat) : bool :=
   match a, b with
   | ENode o s i ou r k m, ENode o' s' i' ou' r' k' m' =>
@@ -61,7 +62,7 @@ Definition corr (c : case) : bool :=
       match to_model h, obs with
       | None, None => true
       | Some m, Some o =>
-          region_eqb (canon port_eqb Z.eqb m) (canon N.eqb N.eqb o) &&
+          region_eqb (canon_full port_eqb Z.eqb m) (canon_full N.eqb N.eqb o) &&
           (* clause 6 (a theorem since the second pass) stays evaluated on the model's module *)
           (if valid_all h then order_hints_complete_and_keyed h m else true)
       | _, _ => false
